@@ -116,7 +116,9 @@ func (in *Interp) evalGlobalFromInit(g *ssa.Global) (val Val, ok bool) {
 		return nil, false
 	}
 	switch g.Type().(*types.Pointer).Elem().Underlying().(type) {
-	case *types.Slice, *types.Map, *types.Array, *types.Struct:
+	case *types.Slice, *types.Map, *types.Array, *types.Struct, *types.Interface:
+		// (an interface variable holding the one implementation the
+		// initialiser gave it: calls through it are calls of that type)
 	default:
 		return nil, false
 	}
